@@ -206,6 +206,40 @@ async def fetch_policy(rec):
     return runs
 
 
+async def api_iterables(rec):
+    """get_many() takes any iterable of OIDs: lists, tuples, generators, iterators, map objects, dict views.  Whatever it is given, the
+    request names exactly those OIDs in that order (both clients)."""
+    std = scripts.std_cfgs()
+    runs = []
+    oids = ["1.3.6.1.4.1.9999.5.%d" % i for i in (1, 2, 3)]
+    mib = [bytes([43, 6, 1, 4, 1, 206, 15, 5, i]) for i in range(1, 4)]
+    forms = [("list", lambda: list(oids)), ("tuple", lambda: tuple(oids)), ("generator", lambda: (o for o in oids)), ("iter", lambda: iter(list(oids))),
+             ("map", lambda: map(str, oids)), ("dict-keys", lambda: dict.fromkeys(oids).keys()), ("reversed", lambda: reversed(oids[::-1]))]
+    for cn in ("v2c", "v3-md5"):
+        for kind in ("sync", "async"):
+            for fname, make in forms:
+                a = rec.n
+                cfg = std[cn]
+                agent = ag.Agent(engine=cfg.engine or None) if cfg.engine else ag.Agent()
+                holder = {}
+                if kind == "async":
+                    api = await apidrv.AsyncApi.create(rec, cfg, lambda req: holder["r"](req), timeout=0.5)
+                else:
+                    api = apidrv.SyncApi(rec, cfg, lambda req: holder["r"](req), timeout=0.5)
+                holder["r"] = walks.honest_responder(agent, api.cfgref, mib, 3)
+                api.ctx.walk, api.ctx.oids, api.ctx.op = False, list(oids), "get_many"
+                try:
+                    r = api.session.get_many(make())
+                    if kind == "async":
+                        await r
+                except BaseException as e:  # noqa
+                    if type(e).__name__ == "TimeoutError" and kind == "async":
+                        apidrv.api_result_event(api.rec2, api.sid, "get_many", e)
+                api.close()
+                runs.append((a, rec.n, dict(kind="iterable", cfg=cn, client=kind, form=fname)))
+    return runs
+
+
 def run(tier):
     chk = Check("C03", tier)
     thorough = tier == "thorough"
@@ -265,6 +299,7 @@ def run(tier):
         runs.append((a, rec.n, dict(kind="random", cfg=cn, seed=SEED, index=i)))
         chk.case(("random", cn, i), n=25)
     runs += asyncio.run(fetch_policy(rec))
+    runs += asyncio.run(api_iterables(rec))
     # the configured user survives a failed discovery that is retried (every later request goes out under it)
     from checks import c13
     k = 0
@@ -322,6 +357,8 @@ def replay(path):
         run_history(rec, tuple(info["pair"]), info["history"], 0)
     elif info["kind"] == "fetch":
         asyncio.run(fetch_policy(rec))
+    elif info["kind"] == "iterable":
+        asyncio.run(api_iterables(rec))
     elif info["kind"] == "sendfail":
         run_sendfail(rec, tuple(info["pair"]), info["k"])
     else:
